@@ -1120,8 +1120,10 @@ def tree_path_to_fs_path(
       tree_encoding: Encoding used for tree paths (default: utf-8)
     Returns: Filesystem path as bytes (with os.sep, filesystem encoding)
     """
-    # Decode from tree encoding
-    path_str = tree_path.decode(tree_encoding)
+    # Decode from tree encoding. Git paths are arbitrary bytes: keep what is
+    # not valid in the tree encoding as surrogate escapes, which os.fsencode
+    # turns back into the original bytes.
+    path_str = tree_path.decode(tree_encoding, "surrogateescape")
 
     # Replace / with OS separator if needed
     if os.sep != "/":
@@ -1519,7 +1521,7 @@ def commit(
                 modified_files: list[str | bytes | os.PathLike[str]] = []
                 for path in unstaged_changes:
                     if isinstance(path, bytes):
-                        modified_files.append(path.decode())
+                        modified_files.append(os.fsdecode(path))
                     else:
                         modified_files.append(path)
 
@@ -2042,7 +2044,7 @@ def add(
         for p in paths:
             # Handle bytes paths by decoding them
             if isinstance(p, bytes):
-                p = p.decode("utf-8")
+                p = os.fsdecode(p)
             path = Path(p)
             if not path.is_absolute():
                 # Make relative paths relative to the repo directory
@@ -2098,7 +2100,7 @@ def add(
                 # Also add unstaged (modified) files within this directory
                 for unstaged_path in all_unstaged_paths:
                     if isinstance(unstaged_path, bytes):
-                        unstaged_path_str = unstaged_path.decode("utf-8")
+                        unstaged_path_str = os.fsdecode(unstaged_path)
                     else:
                         unstaged_path_str = unstaged_path
 
@@ -5895,7 +5897,7 @@ def _check_uncommitted_changes(
             else:
                 # File exists in target tree - would overwrite local changes
                 raise CheckoutError(
-                    f"Your local changes to '{change.decode()}' would be "
+                    f"Your local changes to '{change.decode('utf-8', 'replace')}' would be "
                     "overwritten. Please commit or stash before switching."
                 )
 
